@@ -649,7 +649,9 @@ where
             //= https://www.rfc-editor.org/rfc/rfc9114#section-6.2.3
             //# They MAY also be
             //# sent on connections where no data is currently being transferred.
-            ready!(self.poll_grease_stream(cx));
+            // The grease stream is optional: never wait for it here, the frame that has just
+            // been taken off the control stream must reach the caller.
+            let _ = self.poll_grease_stream(cx);
         }
 
         Poll::Ready(Ok(res))
